@@ -438,7 +438,7 @@ func tagsOf(cmds []cspec, s *sim) []string {
 }
 
 func generate(tier string, r *rng.R) []fw.Case {
-	n := 1000
+	n := 2000
 	if tier == "thorough" {
 		n = 20000
 	}
